@@ -11,13 +11,13 @@
 (* the real code on a valid input is not explained by any action.              *)
 EXTENDS TraceBase, OrdMapOps
 
-VARIABLES l, K, vers, its
+VARIABLES l, K, PG, SF, vers, its
 
-tvars == <<l, K, vers, its>>
+tvars == <<l, K, PG, SF, vers, its>>
 
 Ev == Log[l]
 
-TraceInit == HWInit /\ l = 1 /\ K = 0 /\ vers = <<>> /\ its = <<>>
+TraceInit == HWInit /\ l = 1 /\ K = 0 /\ PG = <<>> /\ SF = <<>> /\ vers = <<>> /\ its = <<>>
 
 IsEvent(e) == l <= NLog /\ Ev.e = e /\ l' = l + 1
 
@@ -25,14 +25,15 @@ IsEvent(e) == l <= NLog /\ Ev.e = e /\ l' = l + 1
 \* a quantifier inside an action into a list of conjuncts (deep recursion, slow)
 Holds(b) == b = TRUE
 
-NoIt == [v |-> 0, c |-> CurRew, org |-> 0, end |-> 0]
+NoIt == [v |-> 0, c |-> CurRew, org |-> 0, end |-> 0, sk |-> <<>>]
 
 TrReset == /\ IsEvent("Reset")
-           /\ K' = 0 /\ vers' = <<>> /\ its' = <<>>
+           /\ K' = 0 /\ PG' = <<>> /\ SF' = <<>> /\ vers' = <<>> /\ its' = <<>>
 
-\* start of a scenario: size of the key universe
+\* start of a scenario: size of the key universe; for composite keys the prefix / suffix rank
+\* of every key (skip-scan), else empty
 TrScn == /\ IsEvent("Scn")
-         /\ K' = Ev.K /\ vers' = <<>> /\ its' = <<>>
+         /\ K' = Ev.K /\ PG' = Ev.pg /\ SF' = Ev.sf /\ vers' = <<>> /\ its' = <<>>
 
 Changes(ks, ops, offs) == [i \in 1..Len(ks) |-> [k |-> ks[i], op |-> ops[i], off |-> offs[i]]]
 
@@ -45,7 +46,7 @@ TrBuild ==
     /\ Holds(\A i \in 1..Len(Ev.ks) : (Ev.added[i] = 1) <=> Added(Ev.ks, i))
     /\ vers' = Append(vers, Build(K, Ev.ks, Ev.offs))
     /\ Ev.v = Len(vers')
-    /\ UNCHANGED <<K, its>>
+    /\ UNCHANGED <<K, PG, SF, its>>
 
 \* MergeAndSave(batch) on version from gives version v; from is unchanged
 TrMerge ==
@@ -56,7 +57,7 @@ TrMerge ==
         /\ Assert(ValidBatch(vers[Ev.from], b), "harness error: invalid batch generated")
         /\ vers' = Append(vers, MergeBatch(vers[Ev.from], b))
     /\ Ev.v = Len(vers')
-    /\ UNCHANGED <<K, its>>
+    /\ UNCHANGED <<K, PG, SF, its>>
 
 \* full observation of one version: Lookup of the whole universe, forward and backward
 \* iteration (keys and offsets), Check() (count; -1 = it panicked), tree levels < 8
@@ -71,7 +72,7 @@ TrState ==
               /\ Ev.bwd = Reverse(Ev.fwd)             \* = Desc(mm)
               /\ Ev.bwdo = OffsOf(mm, Ev.bwd)
               /\ Ev.chk = Len(Ev.fwd))                \* = Count(mm)
-    /\ UNCHANGED <<K, vers, its>>
+    /\ UNCHANGED <<K, PG, SF, vers, its>>
 
 \* keys and offsets handed to the callback of Check(fn), in order
 TrChkKeys ==
@@ -80,7 +81,7 @@ TrChkKeys ==
     /\ Ev.v \in 1..Len(vers)
     /\ LET mm == vers[Ev.v] IN
         Holds(Ev.ks = Asc(mm) /\ Ev.offs = OffsOf(mm, Ev.ks))
-    /\ UNCHANGED <<K, vers, its>>
+    /\ UNCHANGED <<K, PG, SF, vers, its>>
 
 Grow(s, n) == [i \in 1..(IF n > Len(s) THEN n ELSE Len(s)) |-> IF i <= Len(s) THEN s[i] ELSE NoIt]
 
@@ -88,8 +89,8 @@ Grow(s, n) == [i \in 1..(IF n > Len(s) THEN n ELSE Len(s)) |-> IF i <= Len(s) TH
 TrItNew ==
     /\ IsEvent("ItNew")
     /\ Ev.v \in 1..Len(vers) /\ Ev.it >= 1
-    /\ its' = [Grow(its, Ev.it) EXCEPT ![Ev.it] = [v |-> Ev.v, c |-> CurRew, org |-> 0, end |-> K + 1]]
-    /\ UNCHANGED <<K, vers>>
+    /\ its' = [Grow(its, Ev.it) EXCEPT ![Ev.it] = [v |-> Ev.v, c |-> CurRew, org |-> 0, end |-> K + 1, sk |-> <<>>]]
+    /\ UNCHANGED <<K, PG, SF, vers>>
 
 \* one iterator call; res = rank of Cur() key or 0 for eof / rewound, off = Cur() offset (0 at eof),
 \* eof = it.Eof(). Rank 0 is ixkey.Min (or below every key), K+1 is ixkey.Max
@@ -99,23 +100,27 @@ TrItOp ==
     /\ Ev.it \in 1..Len(its) /\ its[Ev.it].v # 0
     /\ LET i == its[Ev.it]
            mm == vers[i.v]
-           c2 == CASE Ev.op = "next"   -> CNext(mm, i.c, i.org, i.end)
-                   [] Ev.op = "prev"   -> CPrev(mm, i.c, i.org, i.end)
-                   [] Ev.op = "seek"   -> CSeek(mm, Ev.k, i.org, i.end)
+           skip == i.sk # <<>>
+           vis == Visible(mm, PG, SF, i.sk)
+           c2 == CASE Ev.op = "next"   -> IF skip THEN VNext(vis, i.c) ELSE CNext(mm, i.c, i.org, i.end)
+                   [] Ev.op = "prev"   -> IF skip THEN VPrev(vis, i.c, K + 1) ELSE CPrev(mm, i.c, i.org, i.end)
+                   [] Ev.op = "seek"   -> IF skip THEN VSeek(vis, Ev.k, K + 1) ELSE CSeek(mm, Ev.k, i.org, i.end)
                    [] Ev.op = "rewind" -> CurRew
                    [] Ev.op = "range"  -> CurRew
-           i2 == IF Ev.op = "range" THEN [i EXCEPT !.c = c2, !.org = Ev.k, !.end = Ev.k2]
-                 ELSE [i EXCEPT !.c = c2] IN
-        /\ Holds(/\ Ev.op \in {"next", "prev", "seek", "rewind", "range"}
+                   [] Ev.op = "skip"   -> CurRew
+           i2 == CASE Ev.op = "range" -> [i EXCEPT !.c = c2, !.org = Ev.k, !.end = Ev.k2, !.sk = <<>>]
+                   [] Ev.op = "skip"  -> [i EXCEPT !.c = c2, !.sk = <<Ev.k, Ev.k2, Ev.k3, Ev.k4>>]
+                   [] OTHER -> [i EXCEPT !.c = c2] IN
+        /\ Holds(/\ Ev.op \in {"next", "prev", "seek", "rewind", "range", "skip"}
                  /\ c2.st = "in"  => Ev.res = c2.cur /\ Ev.off = mm[c2.cur] /\ Ev.eof = 0
                  /\ c2.st = "eof" => Ev.res = 0 /\ Ev.off = 0 /\ Ev.eof = 1
                  /\ c2.st = "rew" => Ev.eof = 0
                  \* the declarative meaning holds as well (operators of the exhaustive spec)
-                 /\ Ev.op = "next" => NextMeaning(mm, i.c, c2, i.org, i.end)
-                 /\ Ev.op = "prev" => PrevMeaning(mm, i.c, c2, i.org, i.end)
-                 /\ Ev.op = "seek" => SeekMeaning(mm, Ev.k, c2, i.org, i.end))
+                 /\ (Ev.op = "next" /\ ~skip) => NextMeaning(mm, i.c, c2, i.org, i.end)
+                 /\ (Ev.op = "prev" /\ ~skip) => PrevMeaning(mm, i.c, c2, i.org, i.end)
+                 /\ (Ev.op = "seek" /\ ~skip) => SeekMeaning(mm, Ev.k, c2, i.org, i.end))
         /\ its' = [its EXCEPT ![Ev.it] = i2]
-    /\ UNCHANGED <<K, vers>>
+    /\ UNCHANGED <<K, PG, SF, vers>>
 
 \* RangeFrac(org, end): the estimate is a finite number in [0, 1] (ppm = round(frac * 1e6));
 \* exactly 0 for an empty range description (org >= end)
@@ -125,10 +130,10 @@ TrFrac ==
     /\ Ev.v \in 1..Len(vers)
     /\ Ev.fin = 1
     /\ 0 <= Ev.ppm /\ Ev.ppm <= 1000000
-    /\ UNCHANGED <<K, vers, its>>
+    /\ UNCHANGED <<K, PG, SF, vers, its>>
 
 \* informational lines (scenario descriptions, skipped scenarios)
-TrNote == /\ IsEvent("Note") /\ UNCHANGED <<K, vers, its>>
+TrNote == /\ IsEvent("Note") /\ UNCHANGED <<K, PG, SF, vers, its>>
 
 TraceNext == TrReset \/ TrScn \/ TrBuild \/ TrMerge \/ TrState \/ TrChkKeys \/ TrItNew \/ TrItOp
              \/ TrFrac \/ TrNote
